@@ -218,12 +218,16 @@ impl Reporter {
             let _ = std::fs::create_dir_all(&tdir);
             let _ = std::fs::copy(&path, format!("{}/{}.json", tdir, self.property));
         }
+        // a violation that was demonstrated stands (exit 1) even if some other part of the run had a machinery problem
+        if !self.violations.is_empty() {
+            if !self.machinery_errors.is_empty() {
+                emit(&format!("MACHINERY-ERROR (beside the violations above): {}", self.machinery_errors.first().cloned().unwrap_or_default()));
+            }
+            return 1;
+        }
         if !self.machinery_errors.is_empty() {
             emit(&format!("MACHINERY-ERROR: {} machinery error(s); this run is not a verdict: {}", self.machinery_errors.len(), self.machinery_errors.first().cloned().unwrap_or_default()));
             return 2;
-        }
-        if !self.violations.is_empty() {
-            return 1;
         }
         emit(&format!("OK property={} tier={} wall={:.1}s {}", self.property, self.tier.name(), wall, summary(&self.coverage)));
         0
